@@ -16,7 +16,7 @@ KIND_NAMES = {
     1704: 'C17/webseed_cap: AddTorrent of a torrent with k web seed URLs under WebseedMaxSources = c: no crash, min(k, c) kept',
     1703: 'session/ram_late_grant: write cache of one piece, two interested seeds, the second waits for memory; the grant is handled after the torrent completed or was stopped: allocated objects afterwards',
     1701: 'C17/ram: resourcemanager vs Ram.v (outcomes and notifications validated; allocation compared exactly)',
-    901: 'C09/picker: piecepicker (peer half) under the torrent glue vs Picker.v (picks validated against the legal set)',
+    901: 'C09/picker: piecepicker (peer half) under the torrent glue vs Picker.v (picks validated against the legal set; Available, RequestedPeers and the Snubbed / Choked sets of every piece compared after every operation)',
     1401: 'C14/resume: boltdbresumer Write then Read of generated records in a real bbolt file vs Resume.run_resume (identity up to the stored precision)',
     1402: 'C14/registry: Session API histories (add file/magnet, given and duplicate ids, failing adds, remove, start/stop, add tracker, close+reopen, compact+reopen) vs Registry.v (port choice validated)',
     1501: 'C15/udp_packet: UDP announce datagram vs Tracker.udp_announce',
